@@ -110,7 +110,7 @@ type c05Script struct {
 	up       bool
 	reads    []c05Read
 	writes   []c05Write
-	dls      []bool
+	dls      []string // per setConnDeadline call: 1 ok, 0 fails, u1/u0 SetDeadline answers ENOTSUP and SetReadDeadline succeeds/fails
 	srcClose string
 	dstClose string
 }
@@ -132,9 +132,7 @@ func (s *c05Script) fields() string {
 	for _, w := range s.writes {
 		ws = append(ws, fmt.Sprintf("%d:%s", w.accept, w.err))
 	}
-	for _, d := range s.dls {
-		ds = append(ds, vlib.B(d))
-	}
+	ds = append(ds, s.dls...)
 	return strings.Join(rs, ";") + "|" + strings.Join(ws, ";") + "|" + strings.Join(ds, ",") + "|" + s.srcClose + "|" + s.dstClose
 }
 
@@ -180,7 +178,10 @@ func c05ParseFields(f []string) (*c05Script, error) {
 	}
 	if f[2] != "" {
 		for _, e := range strings.Split(f[2], ",") {
-			s.dls = append(s.dls, e == "1")
+			if e != "1" && e != "0" && e != "u1" && e != "u0" {
+				return nil, fmt.Errorf("bad deadline result %q", e)
+			}
+			s.dls = append(s.dls, e)
 		}
 	}
 	return s, nil
@@ -192,7 +193,7 @@ func c05ParseFields(f []string) (*c05Script, error) {
 type c05World struct {
 	mu      sync.Mutex
 	trace   []string
-	dls     []bool
+	dls     []string
 	dlIdx   int
 	dlFault bool
 	lastNr  int // nr of the last read (what halfPipe compares nw with)
@@ -221,6 +222,7 @@ type c05Conn struct {
 	closedCh   chan struct{}
 	closeOnce  sync.Once
 	remote     net.Addr
+	pendingFB  string // the SetDeadline just answered ENOTSUP: result the SetReadDeadline fallback will give
 }
 
 func newC05Conn(w *c05World, isSrc bool) *c05Conn {
@@ -349,26 +351,52 @@ func (c *c05Conn) SetDeadline(t time.Time) error {
 		return nil
 	}
 	c.w.mu.Lock()
-	ok := true
+	defer c.w.mu.Unlock()
+	res := "1"
 	if c.w.dlIdx < len(c.w.dls) {
-		ok = c.w.dls[c.w.dlIdx]
+		res = c.w.dls[c.w.dlIdx]
 	}
 	c.w.dlIdx++
-	if !ok {
+	who := "dd"
+	if c.isSrc {
+		who = "ds"
+	}
+	switch res {
+	case "1":
+		c.w.trace = append(c.w.trace, who+"1")
+		return nil
+	case "0":
 		c.w.dlFault = true
+		c.w.trace = append(c.w.trace, who+"0")
+		return &net.OpError{Op: "set", Net: "tcp", Err: syscall.EINVAL}
+	}
+	// an obfs4-style connection: only read deadlines are supported
+	c.pendingFB = res
+	return syscall.ENOTSUP
+}
+
+func (c *c05Conn) SetReadDeadline(t time.Time) error {
+	if c.quiet {
+		return nil
+	}
+	c.w.mu.Lock()
+	defer c.w.mu.Unlock()
+	if c.pendingFB == "" {
+		return nil
 	}
 	who := "dd"
 	if c.isSrc {
 		who = "ds"
 	}
-	c.w.trace = append(c.w.trace, who+vlib.B(ok))
-	c.w.mu.Unlock()
+	ok := c.pendingFB == "u1"
+	c.pendingFB = ""
+	c.w.trace = append(c.w.trace, who+vlib.B(ok)+"f")
 	if !ok {
-		return syscall.ENOTSUP
+		c.w.dlFault = true
+		return &net.OpError{Op: "set", Net: "tcp", Err: syscall.EINVAL}
 	}
 	return nil
 }
-func (c *c05Conn) SetReadDeadline(t time.Time) error  { return nil }
 func (c *c05Conn) SetWriteDeadline(t time.Time) error { return nil }
 
 // ---------------------------------------------------------------------------------------------
@@ -856,8 +884,27 @@ func c05Enumerate(out *vlib.Out, maxR, maxW, maxDl int) {
 					}
 					s.writes = append(s.writes, c05Write{acc, w.err})
 				}
+				// dl = position of the failing deadline call (-1: none). Three flavours, cycled: plain
+				// connections; obfs4-style ones (every SetDeadline unsupported, read-deadline fallback
+				// works) with a failing call at dl; a fallback that itself fails at dl.
+				okRes, failRes := "1", "0"
+				switch k % 3 {
+				case 1:
+					okRes = "u1"
+				case 2:
+					failRes = "u0"
+				}
 				for i := 0; i <= dl; i++ {
-					s.dls = append(s.dls, i != dl)
+					if i != dl {
+						s.dls = append(s.dls, okRes)
+					} else {
+						s.dls = append(s.dls, failRes)
+					}
+				}
+				if dl < 0 && k%3 == 1 {
+					for i := 0; i < 2*len(rs)+2; i++ {
+						s.dls = append(s.dls, "u1")
+					}
 				}
 				ans := runC05(out, s)
 				out.Case(s.line(), ans, true)
@@ -918,7 +965,16 @@ func c05Random(r *vlib.Rand) *c05Script {
 	if r.Chance(1, 4) {
 		m := r.Range(1, 2*n+2)
 		for i := 0; i < m; i++ {
-			s.dls = append(s.dls, !r.Chance(1, 2*n+4))
+			switch {
+			case r.Chance(1, 2*n+4):
+				s.dls = append(s.dls, "0")
+			case r.Chance(1, 4*n+8):
+				s.dls = append(s.dls, "u0")
+			case r.Chance(1, 6):
+				s.dls = append(s.dls, "u1")
+			default:
+				s.dls = append(s.dls, "1")
+			}
 		}
 	}
 	if r.Chance(1, 3) {
@@ -957,8 +1013,13 @@ func c05Hist(out *vlib.Out, s *c05Script, ans string) {
 		}
 	}
 	for _, d := range s.dls {
-		if !d {
+		switch d {
+		case "0":
 			out.Count("deadline:fail")
+		case "u1":
+			out.Count("deadline:unsupported-fallback-ok")
+		case "u0":
+			out.Count("deadline:unsupported-fallback-fails")
 		}
 	}
 	if s.srcClose != "-" || s.dstClose != "-" {
@@ -994,10 +1055,14 @@ func c05Corpus() []*c05Script {
 		{up: true, reads: []c05Read{{data: b("abcdef"), err: "-"}, {data: b("gh"), err: "-"}}, writes: []c05Write{{full, "-"}, {1, "rst"}}, srcClose: "-", dstClose: "-"},
 		{up: false, reads: []c05Read{{data: b("abcdef"), err: "-"}}, writes: []c05Write{{0, "-"}}, srcClose: "-", dstClose: "-"},
 		// SetDeadline failures at each of the first positions
-		{up: true, reads: []c05Read{{data: b("ab"), err: "-"}}, dls: []bool{false}, srcClose: "-", dstClose: "-"},
-		{up: true, reads: []c05Read{{data: b("ab"), err: "-"}}, dls: []bool{true, false}, srcClose: "-", dstClose: "-"},
-		{up: false, reads: []c05Read{{data: b("ab"), err: "-"}}, dls: []bool{true, true, false}, srcClose: "-", dstClose: "-"},
-		{up: false, reads: []c05Read{{data: b("ab"), err: "-"}, {data: b("cd"), err: "-"}}, dls: []bool{true, true, true, false}, srcClose: "-", dstClose: "-"},
+		{up: true, reads: []c05Read{{data: b("ab"), err: "-"}}, dls: []string{"0"}, srcClose: "-", dstClose: "-"},
+		{up: true, reads: []c05Read{{data: b("ab"), err: "-"}}, dls: []string{"1", "0"}, srcClose: "-", dstClose: "-"},
+		{up: false, reads: []c05Read{{data: b("ab"), err: "-"}}, dls: []string{"1", "1", "0"}, srcClose: "-", dstClose: "-"},
+		{up: false, reads: []c05Read{{data: b("ab"), err: "-"}, {data: b("cd"), err: "-"}}, dls: []string{"1", "1", "1", "0"}, srcClose: "-", dstClose: "-"},
+		// obfs4-style connection on the source side: SetDeadline unsupported, the read deadline works
+		{up: true, reads: []c05Read{{data: b("ab"), err: "-"}, {data: b("cd"), err: "eof"}}, dls: []string{"u1", "1", "u1", "1"}, srcClose: "-", dstClose: "-"},
+		{up: false, reads: []c05Read{{data: b("ab"), err: "-"}, {data: b("cd"), err: "eof"}}, dls: []string{"1", "u1", "1", "u0"}, srcClose: "-", dstClose: "-"},
+		{up: true, reads: []c05Read{{data: b("ab"), err: "-"}}, dls: []string{"u0"}, srcClose: "-", dstClose: "-"},
 		// failing Close on either side, incl. the timeout sentinel that overwrites both fields
 		{up: true, reads: []c05Read{{data: b("ab"), err: "rst"}}, srcClose: "timeout", dstClose: "timeout"},
 		{up: false, reads: []c05Read{{data: b("ab"), err: "rst"}}, srcClose: "timeout", dstClose: "epipe"},
